@@ -7,3 +7,6 @@ import Lace.Props.C01
 #print axioms Lace.C01.image_word
 #print axioms Lace.C01.image_depends_on_labels_only
 #print axioms Lace.C01.layout_irrelevant_of_assemble_image
+#print axioms Lace.C01.parse_stmt_tokens
+#print axioms Lace.C01.airOf_words
+#print axioms Lace.C01.stmt_tokens_to_spec
